@@ -53,7 +53,11 @@ S7 = ("class K:\n    def __init__(self, {p0}, {p1}=0):\n        self.v = {p0} + 
       "    def m(self, {q0}=1):\n        return {q0}\n\n\nk = K({p0}=1)\nprint(k({q0}=2), K(3, {p1}=4)(5), k.m({q0}=6), K({p0}=7).m())\n")
 S7_HOLES = {"p0": ["a", "b"], "p1": ["b", "c"], "q0": ["a", "b"]}
 
-SCHEMAS = {"S6": (S6, S6_HOLES), "S7": (S7, S7_HOLES), "S1": (S1, S1_HOLES), "S2": (S2, S2_HOLES), "S3A": (S3A, S3A_HOLES), "S3B": (S3B, S3B_HOLES), "S3C": (S3C, S3C_HOLES),
+S8 = ("{g0} = 1\n\n\nclass W:\n    def fn(self, {p0}):\n        {l0} = [\n  {p0},\n  2]\n        s = \"\"\"x\n\"\"\" + str({l0})\n        t = ({p0} +\n{l0}[0])\n"
+      "        return len({l0}) + {u0} + len(s) + t\n\n\nprint(W().fn(3), {g0})\n")
+S8_HOLES = {"g0": ["a", "b"], "p0": ["a", "b"], "l0": ["a", "b", "c"], "u0": ["a", "b"]}
+
+SCHEMAS = {"S8": (S8, S8_HOLES), "S6": (S6, S6_HOLES), "S7": (S7, S7_HOLES), "S1": (S1, S1_HOLES), "S2": (S2, S2_HOLES), "S3A": (S3A, S3A_HOLES), "S3B": (S3B, S3B_HOLES), "S3C": (S3C, S3C_HOLES),
            "S3D": (S3D, S3D_HOLES), "S3E": (S3E, S3E_HOLES), "S4": (S4, S4_HOLES), "S5": (S5, S5_HOLES)}
 
 
